@@ -103,6 +103,10 @@ type Spec struct {
 	Skels       []SkelSpec  `json:"skels"`
 	Routes      []RouteSpec `json:"routes"`
 	Flows       []FlowSpec  `json:"flows"` // control skeletons, see flow.go
+	// additive extensions, see tables.go
+	Enums    []EnumSpec    `json:"enums"`
+	SelSets  []SelSetSpec  `json:"selsets"`
+	CallArgs []CallArgSpec `json:"callargs"`
 }
 
 var fset = token.NewFileSet()
@@ -1001,6 +1005,7 @@ func genModule(repo string, spec *Spec, outDir string) {
 	for i := range spec.Locals {
 		genLocals(repo, &spec.Locals[i], &cs)
 	}
+	genTables(repo, spec, &cs)
 	for i := range spec.Preds {
 		genPred(repo, &spec.Preds[i], &cs)
 	}
